@@ -106,6 +106,13 @@ func main() {
 			ren = histRenames
 		}
 		fmt.Println(eng.NewCtx(p, "x", "quick").SiblingDelta(os.Args[2], os.Args[3], ren))
+	case "scanresets": // exploratory: reset-like methods that leave fields of their receiver unassigned
+		p, err := eng.Load(eng.LoadOpts{})
+		if err != nil {
+			fmt.Println(err)
+			os.Exit(2)
+		}
+		scanResets(p)
 	case "cfg":
 		p, err := eng.Load(eng.LoadOpts{})
 		if err != nil {
